@@ -183,19 +183,19 @@ def generate(rng):
             ops.append({"op": "check_all"})
         elif r < 0.96:
             ops.append({"op": "eq"})
-        elif r < 0.98:
+        elif r < 0.973:
             b = some_block()
             ops.append({"op": "mixin", "what": rng.choice(["pop", "popitem", "clear", "update", "setdefault"]),
                         "level": rng.choice(["file", "block", "cat"]), "b": b, "c": some_cat(b), "key": rng.choice(COLS + CATS)})
-        elif r < 0.99:
+        elif r < 0.98:
             ops.append({"op": "bad_assign", "level": rng.choice(["file", "block"]), "b": some_block(), "c": rng.choice(CATS)})
         else:
             # re-key an existing element: the object stored under one key is stored under another key (of the same or of
             # another container) and removed from the old place, as with any mapping
-            level = rng.choice(["block", "cat", "cat", "cat", "col"])
+            level = rng.choice(["block", "cat", "cat", "col", "col"])
             b = some_block()
             c = some_cat(b)
-            op = {"op": "move", "level": level, "b": b, "c": c, "col": some_col(b, c),
+            op = {"op": "move", "level": level, "b": b, "c": c, "col": some_col(b, c), "keep": level == "col" and rng.random() < 0.5,
                   "b2": rng.choice(BLOCKS) if rng.random() < 0.5 else some_block(), "c2": rng.choice(CATS), "col2": rng.choice(COLS)}
             ops.append(op)
             if level == "block" and b in sk and op["b2"] != b:
@@ -207,10 +207,10 @@ def generate(rng):
                     sk[tb][op["c2"]] = sk[b].pop(c)
             elif level == "col" and b in sk and c in sk[b] and op["col"] in sk[b][c] and op["col2"] != op["col"]:
                 cols = sk[b][c]
-                if op["col2"] in cols:
-                    cols.remove(op["col2"])
-                cols.remove(op["col"])
-                cols.append(op["col2"])
+                if op["col2"] not in cols:
+                    cols.append(op["col2"])
+                if not op["keep"]:
+                    cols.remove(op["col"])
     ops.append({"op": "check_all"})
     return {"cfg": cfg, "ops": ops}
 
@@ -636,12 +636,18 @@ class Sim:
             st, v = call(cat.__setitem__, col2, obj)
             if st == "exc":
                 self.fail("mapping:set-raised", level="category", what="existing column under another key", got=exc_name(v), msg=str(v)[:200])
-            st, v = call(cat.__delitem__, col)
-            if st == "exc":
-                self.fail("mapping:delete-raised", level="category", got=exc_name(v), msg=str(v)[:200])
             m = self.model[b][c]
-            cells = m.pop(col)
-            m[col2] = cells  # an existing key keeps its position, a new one goes to the end (dict semantics)
+            if op.get("keep"):
+                # the same column object under two names (columns have no mutating methods, so the two entries cannot
+                # influence each other): both must be written, and both must come back
+                m[col2] = [list(x) for x in m[col]]
+                self.res.stats["op:column-stored-under-two-names"] += 1
+            else:
+                st, v = call(cat.__delitem__, col)
+                if st == "exc":
+                    self.fail("mapping:delete-raised", level="category", got=exc_name(v), msg=str(v)[:200])
+                cells = m.pop(col)
+                m[col2] = cells  # an existing key keeps its position, a new one goes to the end (dict semantics)
         self.mutations += 1
         self.res.stats["op:move-" + level] += 1
         return "ok"
